@@ -598,6 +598,26 @@ mod two {
     }
 }
 
+/// A frame that does not decode arrives while n calls are queued, the dispatch being a spawned
+/// tokio task (cooperative budget on): the connection ends with an error - the dispatch stops,
+/// nothing is written afterwards, no call is left hanging.
+pub fn spawned_backlog_cases(st: &mut S16, thorough: bool) {
+    for cfg in crate::burst::configs_many(crate::burst::Side::SpawnedClientReadFault, thorough) {
+        st.evals += 1;
+        st.distinct.insert(h(&("spawned-backlog", cfg.n)));
+        // (own thread: the burst builds a runtime of its own)
+        let out = std::thread::spawn(move || crate::burst::run_cfg(&cfg, false)).join();
+        match out {
+            Ok(o) => {
+                for v in o.violations {
+                    crate::c16::failure(st, format!("C16-malformed-not-fatal/{}", v.signature), v.message);
+                }
+            }
+            Err(_) => crate::c16::failure(st, "C16-client-panic/spawned-backlog".into(), format!("{} queued calls, malformed frame: panic", cfg.n)),
+        }
+    }
+}
+
 pub fn stub_variant_cases(st: &mut S16) {
     use two::{TwoClient, TwoRequest, TwoResponse};
     for call_text in [false, true] {
